@@ -223,6 +223,40 @@ def collection_cases(shape, kind, spec, values, res):
                      bool(lacking) and bool(having))
 
 
+MIXED_STYLE = [
+    # equal values written in different YAML styles (bare / quoted,
+    # anchored / plain) are still equal values
+    ("seq", "x:\n  - alpha\n  - \"alpha\"\n  - beta\n",
+     ["alpha", "alpha", "beta"]),
+    ("seq", "x:\n  - 'b'\n  - a\n  - b\n  - \"a\"\n", ["b", "a", "b", "a"]),
+    ("seq", "x:\n  - &w 80\n  - 80\n  - 81\n", [80, 80, 81]),
+    ("seq", "x:\n  - 7\n  - &v 8\n  - 8\n  - *v\n", [7, 8, 8, 8]),
+    ("aoh", "x:\n  - a: alpha\n  - a: 'alpha'\n  - a: beta\n",
+     ["alpha", "alpha", "beta"]),
+    ("aoh", "x:\n  - a: &w 80\n  - a: 81\n  - a: 80\n", [80, 81, 80]),
+    ("hoh", "x:\n  k0:\n    a: \"alpha\"\n  k1:\n    a: beta\n"
+            "  k2:\n    a: alpha\n", ["alpha", "beta", "alpha"]),
+    ("hoh", "x:\n  k0:\n    a: &w 80\n  k1:\n    a: 80\n", [80, 80]),
+]
+
+
+def mixed_style_cases(res):
+    for shape, text, values in MIXED_STYLE:
+        doc, ok = gdocs.load(text)
+        if not ok:
+            raise RuntimeError("document does not load: %r" % text)
+        for keyword in ("MAX", "MIN", "UNIQUE", "DISTINCT"):
+            for inverted in (False, True):
+                has_param = shape != "seq"
+                ptext = "x[%s%s(%s)]" % ("!" if inverted else "",
+                                         keyword.lower(),
+                                         "a" if has_param else "")
+                label = "%s:%s:%s:mixed-style" % (
+                    keyword, shape, "inv" if inverted else "plain")
+                exp = expect(keyword, inverted, has_param, shape, values)
+                run_case(text, doc, ptext, res, exp, label, True)
+
+
 def parent_and_name_cases(text, doc, res):
     """parent(n) / name() at every position of a document."""
     from yamlpath.exceptions import YAMLPathException
@@ -347,6 +381,8 @@ def run_shard(shard):
     dl = Deadline(shard.get("budget_s"))
     k = shard["kind"]
     if k == "seq":
+        if shard["scalar"] == "text":
+            mixed_style_cases(res)
         for spec, values in seq_specs(shard["scalar"]):
             collection_cases("seq", shard["scalar"], spec, values, res)
     elif k in ("aoh", "hoh"):
